@@ -1,7 +1,7 @@
 """R-MODE-FIELD, R-HAS-INSTR, R-EMIT-ORDER: lowering of the plain modes."""
 import re
 
-from vlib.facts import walk, pat_alternatives, peel, place_path, CheckError, uncond_before, conditional_ancestors
+from vlib.facts import pat_variants, walk, pat_alternatives, peel, place_path, CheckError, uncond_before, conditional_ancestors
 from vlib.paths import paths, normal_paths, implied_some_iflets
 from vlib.report import RuleResult
 
@@ -147,6 +147,15 @@ def emit_order(F):
                 for b in walk(n["pat"]):
                     if b.get("k") == "Binding":
                         binds[b["hid"]] = src
+    # `match alternate { Some(alt) [if ..] => .. }` rebinding → still 'alternate'
+    for n in walk(blk):
+        if n.get("k") == "Match" and n.get("src") not in ("ForLoopDesugar", "TryDesugar"):
+            src = _prov_field(n.get("scrut") or {}, binds)
+            if src:
+                for arm in n["arms"]:
+                    for b in walk(arm["pat"]):
+                        if b.get("k") == "Binding":
+                            binds[b["hid"]] = src
     # the loop pattern binds `op`
     loop_binds = {}
     for n in walk(fn["body"]):
@@ -233,6 +242,19 @@ def emit_order(F):
             if "else" in node:
                 scan(node["else"], conds + [("F", node["cond"])])
             return
+        if k == "Match" and id(node) not in list_loops and node.get("src") not in ("ForLoopDesugar", "TryDesugar"):
+            scan(node.get("scrut") or {}, conds)
+            on_alt = _prov_field(node.get("scrut") or {}, binds) == "alternate"
+            earlier = []
+            for arm in node["arms"]:
+                extra = list(earlier)
+                if "guard" in arm:
+                    extra.append(("T", arm["guard"]))
+                    scan(arm["guard"], conds)
+                if on_alt and not any(b.get("k") == "Binding" for b in walk(arm["pat"])) and earlier == [] and False:
+                    pass
+                scan(arm["body"], conds + extra + ([("ALT-ELSE", node)] if on_alt and not any(v_ == "Some" for _a, v_ in pat_variants(arm["pat"])[0]) else []))
+            return
         if k == "Call" or (k == "Match" and id(node) in list_loops):
             lab = classify(node)
             if lab:
@@ -266,7 +288,7 @@ def emit_order(F):
             r.violate("%s | %s unguarded" % (fn["path"], lab), F.loc(fn, st), "%s is not guarded by `!at_end`" % lab)
     # the op emission in the instrumented branch sits in the else-branch of the alternate test
     sites = guards.get("emit:op", [])
-    ok = bool(sites) and all(any(pol == "F" and any(x.get("k") == "MethodCall" and x.get("method") == "is_none" for x in walk(c)) for pol, c in cl) for cl in sites)
+    ok = bool(sites) and all(any((pol == "F" and any(x.get("k") == "MethodCall" and x.get("method") == "is_none" for x in walk(c))) or pol == "ALT-ELSE" for pol, c in cl) for cl in sites)
     r.ob(ok)
     if not ok:
         r.violate("%s | op-not-else-of-alternate" % fn["path"], F.loc(fn, st), "original op emission is not the else-branch of the `alternate` test")
